@@ -54,7 +54,8 @@ def dec_tensor(d):
         t = torch.tensor(vals, dtype=torch.float64).to(dt)
     else:
         t = torch.tensor(vals, dtype=dt)
-    return t.reshape(d["shape"])
+    # a fresh base tensor, not a view: in-place writes through views of autograd.Function inputs behave differently
+    return t.reshape(d["shape"]).clone()
 
 
 # ------------------------------------------------------------------------------ solving
